@@ -9,6 +9,8 @@ import PenneModel.Sem.Parse
 import PenneModel.Sem.Layout
 import PenneModel.Cli.Decide
 import PenneModel.Decls.Imports
+import PenneModel.Types.ValueType
+import PenneModel.Decls.Order
 /-
   Model driver: one request per line on stdin (`OP<TAB>payload`), one answer per line on stdout.
   Only model files are imported (no Mathlib, no proof files), so this links as a native executable.
@@ -177,6 +179,25 @@ def handle (op payload : String) : String :=
       | none => "bad-request"
     | _ => "bad-request"
   | "C12" => c12 payload
+  | "cycle" =>
+    match Sexp.parse payload with
+    | some (.list [.atom "graph", .list (.atom "ids" :: ids), .list (.atom "edges" :: es)]) =>
+      let pairOf : Sexp → Option (Nat × Nat)
+        | .list [a, b] => do some ((← a.toNat?), (← b.toNat?))
+        | _ => none
+      match ids.mapM Sexp.toNat?, es.mapM pairOf with
+      | some ids, some edges =>
+        "cyclical=" ++ ",".intercalate ((Order.cyclical edges).map toString) ++ " n=" ++ toString ids.length ++ " hascycle=" ++
+          (if Order.hasCycle edges then "1" else "0")
+      | _, _ => "bad-request"
+    | _ => "bad-request"
+  | "legal" =>
+    match Sexp.parse payload with
+    | some (.list [.atom "legal", .atom pos, t]) =>
+      match Types.positionOf pos, Types.vtOfSexp 32 t with
+      | some p, some vt => toString (Types.legality p vt)
+      | _, _ => "bad-request"
+    | _ => "bad-request"
   | "C18" => c18 payload
   | "C09" => c09 payload
   | "lex" =>
